@@ -50,8 +50,14 @@ def opener_at(text, i):
 
 
 def is_delim(text, i):
-    """A delimiter character directly preceded by a backslash is a literal."""
-    return text[i] in DELIMS and (i == 0 or text[i - 1] != "\\")
+    """A delimiter character preceded by an odd number of backslashes is a literal (ESC ::= '\\' c pairs are read
+    left to right: an even run of backslashes is escaped backslashes and escapes nothing)."""
+    if text[i] not in DELIMS:
+        return False
+    n = 0
+    while i - n - 1 >= 0 and text[i - n - 1] == "\\":
+        n += 1
+    return n % 2 == 0
 
 
 class _P:
